@@ -25,83 +25,98 @@ def subtree(f, fn_name):
 
 # ------------------------------------------------------------------ C12
 def delete_sites(ctx):
-    return ctx.r.fs_sites(lambda n: "delete" if is_fs_delete(n) else None)
+    """every fs-deletion API call, once: [(raw body, bb, term, root view, bb in root view)]"""
+    r = ctx.r
+    out = []
+    for (b, bb, t, c) in r.fs_sites(lambda n: "delete" if is_fs_delete(n) else None):
+        root = r.container(b)
+        rv = r.V(root)
+        nb = bb if root.name == b.name else rv.locate(b.name, bb)
+        if nb is None:
+            rv, nb = r.V(b), bb
+        out.append((b, bb, t, rv, nb))
+    return out
 
 
-def classify_delete_fn(ctx, b):
-    """role of the fn item owning a deletion site: 'state' | 'workdir' | 'output-filtered' | 'output-plain' | None"""
+def classify_delete_site(ctx, rv, nb, depth=0):
+    """what a deletion site (seen in its root view) deletes, from the provenance of the deleted path:
+    'state' (state path fn) | 'workdir' (work-dir path fn, remove_dir_all) | 'output-filtered' (lister applied to a target's output) |
+    'output-plain' (a declared output path) | None"""
     r = ctx.r
     f = ctx.f
-    outer = r.outer_fn(b)
-    dels, _ = state_delete_fns(ctx)
-    if outer.name in dels:
+    t = rv.term(nb)
+    at = rv.prov.operand_atoms(t["args"][0]) if t["args"] else set()
+    spf = {b.name for b in r.state_path_fns()}
+    wdf = {b.name for b in r.work_dir_path_fns()}
+    cr = atom_callres(at)
+    if cr & spf:
         return "state"
-    wd = {x.name for x in r.work_dir_path_fns()}
-    for x in subtree(f, outer.name):
-        for bb, t in x.calls():
-            if is_fs_delete(t["callee"]["base"]):
-                at = x.prov.operand_atoms(t["args"][0])
-                if atom_callres(at) & wd and t["callee"]["base"].endswith("remove_dir_all"):
-                    return "workdir"
-    if re.search(r"&[\w:]*Target$", outer.locals[1]["ty"] if outer.argc >= 1 else ""):
-        return "output-filtered"
-    if outer.argc == 1 and "Path" in outer.locals[1]["ty"]:
-        callers = {r.outer_fn(cb).name for (cb, bb, t) in r.callers_of(outer)}
-        if callers and all(re.search(r"&[\w:]*Target$", f.bodies[c].locals[1]["ty"] if f.bodies[c].argc >= 1 else "") for c in callers):
-            return "output-plain"
+    if cr & wdf:
+        return "workdir" if t["callee"]["base"].endswith("remove_dir_all") else None
+    out_fns = {b.name for b in f.user_bodies() if b.name.endswith("Target::output")}
+    in_fns = {b.name for b in f.user_bodies() if b.name.endswith("Target::input")}
+    from_output = bool(cr & out_fns) or any(a[0] == "field" and a[2] == "output" and path_ends(a[1], "BuildTarget") for a in at)
+    from_input = bool(cr & in_fns) or any(a[0] == "field" and a[2] == "input" and (path_ends(a[1], "BuildTarget") or path_ends(a[1], "ServiceTarget")) for a in at)
+    if from_output and not from_input:
+        listers = set(r.listers())
+        via_lister = any(c in f.bodies and listers & f.cg.reach([c]) for c in cr)
+        return "output-filtered" if via_lister else "output-plain"
+    # a multi-call-site helper: the path is the helper's own parameter - look at what its callers pass (one level)
+    if depth == 0 and any(a[0] == "param" for a in at) and not from_input:
+        pidx = sorted(a[1] for a in at if a[0] == "param")
+        roles = set()
+        raw = f.bodies[rv.name]
+        for (cv, cbb, ct) in r.callers_of(raw, prefer=[]):
+            for i in pidx:
+                if i - 1 < len(ct["args"]):
+                    cat = cv.prov.operand_atoms(ct["args"][i - 1])
+                    ccr = atom_callres(cat)
+                    if ccr & spf:
+                        roles.add("state")
+                    elif ccr & wdf:
+                        roles.add("workdir")
+                    elif (ccr & out_fns or any(a[0] == "field" and a[2] == "output" and path_ends(a[1], "BuildTarget") for a in cat)) and not (ccr & in_fns):
+                        roles.add("output-plain")
+                    else:
+                        roles.add(None)
+        if len(roles) == 1:
+            return roles.pop()
     return None
 
 
-@rule("C12.DELETE-SITES", ["C12"], """every call of a file-system deletion API belongs to one of: filtered output cleaning, plain output-path cleaning, work-dir removal, state-file
-      deletion; nothing else in the crate deletes""", "K4", floor=4)
+@rule("C12.DELETE-SITES", ["C12"], """every call of a file-system deletion API deletes one of: a file listed (with the extension filter) under a declared output, a declared
+      output path, a project's work directory, a target's state file - decided from the provenance of the deleted path; nothing else in the crate deletes""", "K4", floor=4)
 def delete_sites_rule(ctx):
     sites = delete_sites(ctx)
     ctx.need(len(sites) >= 4, f"deletion API call sites (found {len(sites)}, 5 confirmed by hand)")
     seen = {}
-    for (b, bb, t, c) in sites:
-        role = classify_delete_fn(ctx, b)
+    for (b, bb, t, rv, nb) in sites:
+        role = classify_delete_site(ctx, rv, nb)
         inst = f"{short(ctx.r.outer_fn(b).name)}/{t['callee']['base'].split('::')[-1]}"
         k = seen.get(inst, 0)
         seen[inst] = k + 1
-        ctx.check(role is not None, f"{inst}@{k}", [site(b, bb)], "a file-system deletion outside the four cleaning roles (output cleaning, path cleaning, work-dir removal, state delete): `--clean` or a normal run could delete something that was never declared",
+        ctx.check(role is not None, f"{inst}@{k}", [site(b, bb)], "a file-system deletion whose path is neither a declared output (or a file listed under it), nor a work directory, nor a state file: `--clean` or a normal run could delete something that was never declared",
                   detail=role or "")
-    # std::fs deletions (sync) anywhere are also deletion sites: covered by is_fs_delete
 
 
-@rule("C12.OUTPUT-ONLY", ["C12"], """the paths deleted by the output cleaner derive from the target's declared *outputs* only, never from its inputs""", "K5", floor=1)
+@rule("C12.OUTPUT-ONLY", ["C12"], """the paths deleted by output cleaning derive from the target's declared *outputs* only, never from its inputs""", "K5", floor=1)
 def output_only(ctx):
     r = ctx.r
     f = ctx.f
     n = 0
-    out_fns = {b.name for b in f.user_bodies() if b.name.endswith("Target::output")}
     in_fns = {b.name for b in f.user_bodies() if b.name.endswith("Target::input")}
-    for (b, bb, t, c) in delete_sites(ctx):
-        if classify_delete_fn(ctx, b) != "output-filtered":
-            continue
-        outer = r.outer_fn(b)
-        # everything read from the target parameter in this fn item
-        reads_out = reads_in = False
-        for x in subtree(f, outer.name):
-            for cb, ct in x.calls():
-                cn = callee_base(ct)
-                if cn in out_fns:
-                    reads_out = True
-                if cn in in_fns:
-                    reads_in = True
-            at_all = set()
-            for blk in x.normal_blocks():
-                for st in blk["stmts"]:
-                    pl, _ = rv_sources(st["rv"])
-                    for p in pl:
-                        for fl in place_fields(p):
-                            at_all.add(fl)
-            if "input" in at_all:
-                reads_in = True
-            if "output" in at_all and "BuildTarget" in str(x.j["locals"]):
-                reads_out = True
-        n += 1
-        ctx.check(reads_out and not reads_in, f"{short(outer.name)}", [site(b, bb)], "the output cleaner reads the target's inputs (or not its outputs): `--clean` would delete source files")
-    ctx.need(n >= 1, "output cleaner")
+    for (b, bb, t, rv, nb) in delete_sites(ctx):
+        at = rv.prov.operand_atoms(t_in(rv, nb)["args"][0])
+        touches_input = bool(atom_callres(at) & in_fns) or any(a[0] == "field" and a[2] == "input" and (path_ends(a[1], "BuildTarget") or path_ends(a[1], "ServiceTarget")) for a in at)
+        role = classify_delete_site(ctx, rv, nb)
+        if role in ("output-filtered", "output-plain") or touches_input:
+            n += 1
+            ctx.check(not touches_input, f"{short(r.outer_fn(b).name)}/{t['callee']['base'].split('::')[-1]}@{bb}", [site(b, bb)], "a deleted path derives from the target's declared inputs: `--clean` would delete source files")
+    ctx.need(n >= 1, "output cleaning sites")
+
+
+def t_in(rv, nb):
+    return rv.term(nb)
 
 
 @rule("C12.FILTER-RESPECTED", ["C12"], """with an extension filter only the files listed by the lister (same paths, same filter) are removed; without one each declared path is removed as a
@@ -111,40 +126,40 @@ def filter_respected(ctx):
     f = ctx.f
     listers = set(r.listers())
     n = 0
-    for (b, bb, t, c) in delete_sites(ctx):
-        role = classify_delete_fn(ctx, b)
+    def has_filter(d):
+        return d[0] == "call" and d[1].endswith("::is_some") and d[2] and atom_has_field(d[2][0], "extensions")
+    for (b, bb, t, rv, nb) in delete_sites(ctx):
+        role = classify_delete_site(ctx, rv, nb)
+        tv = rv.term(nb)
         if role == "output-filtered":
             n += 1
-            G = guard_region(b, lambda d: d[0] == "call" and d[1].endswith("::is_some") and d[2] and atom_has_field(d[2][0], "extensions"), True)
-            at = b.prov.operand_atoms(t["args"][0])
+            G = guard_region(rv, has_filter, True)
+            at = rv.prov.operand_atoms(tv["args"][0])
             lister_calls = [x for x in atom_callres(at) if x in f.bodies and listers & f.cg.reach([x])]
-            ok = bb in G and bool(lister_calls) and t["callee"]["base"].endswith("remove_file")
+            ok = nb in G and bool(lister_calls) and tv["callee"]["base"].endswith("remove_file")
             # the lister is fed the resource's own paths and extensions
-            for cb, ct in b.calls():
-                if callee_base(ct) in lister_calls:
-                    a0 = b.prov.operand_atoms(ct["args"][0], interproc=False)
-                    a1 = b.prov.operand_atoms(ct["args"][1], interproc=False) if len(ct["args"]) > 1 else set()
-                    ok = ok and atom_has_field(a0, "paths") and atom_has_field(a1, "extensions")
-            ctx.check(ok, f"{short(b.name)}/filtered", [site(b, bb)], "with an extension filter, files are removed that do not come from the lister applied to the resource's paths and extensions (non-matching files would be deleted)")
-            # the unfiltered branch calls the plain cleaner per declared path
-            Gf = guard_region(b, lambda d: d[0] == "call" and d[1].endswith("::is_some") and d[2] and atom_has_field(d[2][0], "extensions"), False)
-            plain = [x for x in f.user_bodies() if classify_delete_fn(ctx, x) == "output-plain"]
-            pn = {r.outer_fn(x).name for x in plain}
-            calls = [cb for cb, ct in b.calls() if callee_base(ct) in pn and cb in Gf and is_awaited(b, cb)]
-            ctx.check(bool(calls), f"{short(b.name)}/unfiltered", [site(b, x) for x in calls] or [b.loc()], "without an extension filter the declared output paths are not cleaned")
+            fed = False
+            for cb, ct in rv.calls():
+                if callee_base(ct) in lister_calls and cb in G:
+                    a0 = rv.prov.operand_atoms(ct["args"][0], interproc=False)
+                    a1 = rv.prov.operand_atoms(ct["args"][1], interproc=False) if len(ct["args"]) > 1 else set()
+                    fed = fed or (atom_has_field(a0, "paths") and atom_has_field(a1, "extensions"))
+            ctx.check(ok and fed, f"{short(r.outer_fn(b).name)}/filtered", [site(b, bb)], "with an extension filter, files are removed that do not come from the lister applied to the resource's paths and extensions (non-matching files would be deleted)")
         elif role == "output-plain":
             n += 1
-            base = t["callee"]["base"]
+            base = tv["callee"]["base"]
             what = "is_file" if base.endswith("remove_file") else "is_dir"
-            def test(d, what=what):
-                return (d[0] == "await" if False else False)
-            # the guard is an awaited async_std Path::is_file()/is_dir()
             ok = False
-            for e in b.edges:
-                if e.label and e.label[0] == "bool" and e.label[1] is True and bb in b.dominated_by_edge(e):
-                    if origin_matches(edge_origin(b, e), lambda o: o[0] in ("await", "call") and o[1] and o[1].endswith("Path::" + what)):
+            for e in rv.edges:
+                if e.label and e.label[0] == "bool" and e.label[1] is True and nb in rv.dominated_by_edge(e):
+                    if origin_matches(edge_origin(rv, e), lambda o: o[0] in ("await", "call") and o[1] and o[1].endswith("Path::" + what)):
                         ok = True
-            ctx.check(ok, f"{short(b.name)}/{base.split('::')[-1]}", [site(b, bb)], f"`{base.split('::')[-1]}` is not guarded by `{what}()`")
+            ctx.check(ok, f"{short(r.outer_fn(b).name)}/{base.split('::')[-1]}", [site(b, bb)], f"`{base.split('::')[-1]}` is not guarded by `{what}()`")
+            # plain cleaning happens where there is no filter
+            Gf = guard_region(rv, has_filter, False)
+            Gt = guard_region(rv, has_filter, True)
+            if Gf or Gt:
+                ctx.check(nb in Gf, f"{short(r.outer_fn(b).name)}/{base.split('::')[-1]}/unfiltered-branch", [site(b, bb)], "a declared output path is removed wholesale although the resource has an extension filter")
     ctx.need(n >= 3, "deletion sites of the output cleaners")
 
 
@@ -156,34 +171,46 @@ def scope(ctx):
     ma = r.main_async()
     def is_clean(d):
         return d[0] == "call" and d[1].endswith("ArgMatches::is_present") and len(d[2]) > 1 and any(a[0] == "static" and a[1].endswith("CLEAN") for a in d[2][1])
+    # the flag may be tested inside the async block or bound to a local before it (captured)
     Gc = guard_region(ma, is_clean, True)
-    ctx.need(Gc, "`if is_present(CLEAN)` region in main")
+    if not Gc:
+        m = r.main_body()
+        clean_locals = set()
+        for bb, t in m.calls():
+            if t["callee"]["base"].endswith("ArgMatches::is_present") and len(t["args"]) > 1 and any(a[0] == "static" and a[1].endswith("CLEAN") for a in m.prov.operand_atoms(t["args"][1])):
+                for l in m.prov.flows_forward(t["dest"]["local"]):
+                    nm = m.locals[l].get("name")
+                    if nm:
+                        clean_locals.add(nm)
+        Gc = guard_region(ma, lambda d: d[0] == "field" and any(d[1] == n or n in d[1] for n in clean_locals), True)
+    ctx.need(Gc, "region of main guarded by the --clean flag")
     def req_some(d):
-        return d[0] == "call" and d[1].endswith("::is_some") and d[2] and any(a[0] == "field" and "requested" in a[2] for a in d[2][0])
+        return (d[0] == "call" and d[1].endswith("::is_some") and d[2] and any(a[0] == "field" and "requested" in a[2] for a in d[2][0])) or (d[0] == "field" and "requested" in d[1])
     Gs = guard_region(ma, req_some, True, within=Gc)
     Gn = guard_region(ma, req_some, False, within=Gc)
     n = 0
-    for bb, t in ma.calls():
-        cn = callee_base(t)
-        if cn not in f.bodies or f.bodies[cn].coroutine:
-            continue
-        roles = set()
-        for x in f.cg.reach([cn], cross_spawn=False):
-            xb = f.bodies[x]
-            for sb, st in xb.calls():
-                if is_fs_delete(st["callee"]["base"]):
-                    roles.add(classify_delete_fn(ctx, xb))
-        if not roles:
-            continue
-        n += 1
-        ups = {a[2] for a in ma.prov.operand_atoms(t["args"][0]) if a[0] == "field" and a[1].startswith("{env of")} if t["args"] else set()
-        if roles == {"state"}:
-            ctx.check(bb in Gc and bb in Gs and any("targets" in u for u in ups), f"main/{short(cn)}", [site(ma, bb)], "recorded state is deleted outside `--clean <targets>` or not for the resolved targets")
-        elif roles == {"workdir"}:
-            ctx.check(bb in Gc and bb in Gn and any("project_dirs" in u for u in ups), f"main/{short(cn)}", [site(ma, bb)], "work directories are removed outside `--clean` without targets, or not for the loaded project directories")
+    def upv(at):
+        return {a[2] for a in at if a[0] == "field" and a[1].startswith("{env of")}
+    # destructive sites: deletion API sites located in main's view, and calls (in main's view) of local fns that delete
+    items = []
+    for (b, bb, t, rv, nb) in delete_sites(ctx):
+        if rv.name == ma.name:
+            items.append((nb, classify_delete_site(ctx, rv, nb), upv(rv.prov.operand_atoms(t_in(rv, nb)["args"][0])), short(r.outer_fn(b).name)))
         else:
-            ctx.check(bb in Gc and any("targets" in u for u in ups) and roles <= {"output-filtered", "output-plain"}, f"main/{short(cn)}", [site(ma, bb)], "outputs are cleaned outside `--clean` or not for the resolved targets")
-    ctx.need(n >= 3, "destructive calls in main")
+            role = classify_delete_site(ctx, rv, nb)
+            raw = f.bodies[rv.name]
+            for (cv, cbb, ct) in r.callers_of(raw, prefer=[]):
+                if cv.name == ma.name:
+                    items.append((cbb, role, upv(cv.prov.operand_atoms(ct["args"][0])) if ct["args"] else set(), short(r.fn_of(raw).name)))
+    for (bb, role, ups, lab) in items:
+        n += 1
+        if role == "state":
+            ctx.check(bb in Gc and bb in Gs and any("targets" in u for u in ups), f"main/{lab}@{role}", [site(ma, bb)], "recorded state is deleted outside `--clean <targets>` or not for the resolved targets")
+        elif role == "workdir":
+            ctx.check(bb in Gc and bb in Gn and any("project_dirs" in u for u in ups), f"main/{lab}@{role}", [site(ma, bb)], "work directories are removed outside `--clean` without targets, or not for the loaded project directories")
+        else:
+            ctx.check(bb in Gc and any("targets" in u for u in ups) and role in ("output-filtered", "output-plain"), f"main/{lab}@{role}@{bb}", [site(ma, bb)], "outputs are cleaned outside `--clean` or not for the resolved targets")
+    ctx.need(n >= 3, "destructive sites in main")
 
 
 @rule("C12.WORKDIR-PATH", ["C12", "C16"], """the directory removed by work-dir removal is `<project dir>/.zinoma`, never the project directory itself""", "K5", floor=1)
@@ -198,11 +225,11 @@ def workdir_path(ctx):
     v = ctx.f.const_value("WORK_DIR_NAME")
     ctx.check(v is not None and ".zinoma" in v, "WORK_DIR_NAME", [], f"the work directory name is {v}")
     n = 0
-    for (b, bb, t, c) in delete_sites(ctx):
-        if classify_delete_fn(ctx, b) == "workdir":
+    for (b, bb, t, rv, nb) in delete_sites(ctx):
+        if t["callee"]["base"].endswith("remove_dir_all") and classify_delete_site(ctx, rv, nb) in ("workdir", None):
             n += 1
-            at = b.prov.operand_atoms(t["args"][0], interproc=False)
-            ctx.check(bool(atom_callres(at) & {x.name for x in wd}), f"{short(b.name)}/remove", [site(b, bb)], "work-dir removal deletes a path that does not come from the work-dir path function")
+            at = rv.prov.operand_atoms(rv.term(nb)["args"][0])
+            ctx.check(bool(atom_callres(at) & {x.name for x in wd}), f"{short(r.outer_fn(b).name)}/remove", [site(b, bb)], "a whole directory is removed whose path does not come from the work-dir path function (nor from a declared output)")
     ctx.need(n >= 1, "work-dir removal site")
 
 
